@@ -116,13 +116,19 @@ fn canon_audit(rep: &Arc<Reporter>, scns: &[Scenario], results: &[(usize, String
     }
     let max_states: u64 = std::env::var("VERIF_E1_AUDIT_STATES").ok().and_then(|s| s.parse().ok()).unwrap_or(match rep.tier {
         Tier::Quick => 130,
-        Tier::Thorough => 700,
+        Tier::Thorough => 300,
     });
-    let path_cap: usize = match rep.tier {
-        Tier::Quick => 40_000,
-        Tier::Thorough => 1_500_000,
+    // a tree state carries its whole path: at most 40 000 paths per tree (16 trees at a time
+    // stay below 2 GB), and a budget for the whole audit; the smallest scenarios go first
+    let path_cap: usize = 40_000;
+    let budget: u64 = match rep.tier {
+        Tier::Quick => 400_000,
+        Tier::Thorough => 800_000,
     };
-    let picked: Vec<(usize, &model::RunResult)> = results.iter().filter(|r| r.2.states <= max_states && !r.2.found).map(|r| (r.0, &r.2)).collect();
+    let mut picked: Vec<(usize, &model::RunResult)> = results.iter().filter(|r| r.2.states <= max_states && !r.2.found).map(|r| (r.0, &r.2)).collect();
+    // (popped from the back: largest last in the vector = smallest first out)
+    picked.sort_by(|a, b| b.1.states.cmp(&a.1.states));
+    let spent = std::sync::atomic::AtomicU64::new(0);
     let queue = std::sync::Mutex::new(picked.clone());
     let out = std::sync::Mutex::new((0u64, 0u64, 0u64, Vec::<String>::new())); // audited, paths, skipped, mismatches
     let threads = std::thread::available_parallelism().map(|x| x.get()).unwrap_or(8).min(16);
@@ -134,22 +140,38 @@ fn canon_audit(rep: &Arc<Reporter>, scns: &[Scenario], results: &[(usize, String
                     Some(x) => x,
                     None => break,
                 };
+                if spent.load(std::sync::atomic::Ordering::Relaxed) >= budget {
+                    out.lock().unwrap().2 += 1;
+                    continue;
+                }
                 let scn = scns[idx].clone();
                 let name = scn.name.clone();
                 match model::explore(scn, rep.clone(), 1, false, false, Some(path_cap)) {
-                    None => out.lock().unwrap().2 += 1,
+                    None => {
+                        spent.fetch_add(path_cap as u64, std::sync::atomic::Ordering::Relaxed);
+                        out.lock().unwrap().2 += 1
+                    }
                     Some(r) => {
+                        spent.fetch_add(r.states, std::sync::atomic::Ordering::Relaxed);
                         let mut o = out.lock().unwrap();
                         o.0 += 1;
                         o.1 += r.states;
                         if !r.found && (r.terminal_log_set != base.terminal_log_set || r.viol_keys != base.viol_keys) {
+                            let extra: Vec<String> = r
+                                .terminal_log_paths
+                                .iter()
+                                .filter(|(d, _)| !base.terminal_log_set.contains(d))
+                                .take(2)
+                                .map(|(_, p)| format!("{:?}", p))
+                                .collect();
                             o.3.push(format!(
-                                "{}: tree search found {} terminal logs / keys {:?}, de-duplicated search {} / {:?}",
+                                "{}: tree search found {} terminal logs / keys {:?}, de-duplicated search {} / {:?}; paths to logs only the tree search reached: {:?}",
                                 name,
                                 r.terminal_log_set.len(),
                                 r.viol_keys,
                                 base.terminal_log_set.len(),
-                                base.viol_keys
+                                base.viol_keys,
+                                extra
                             ));
                         }
                     }
@@ -161,7 +183,7 @@ fn canon_audit(rep: &Arc<Reporter>, scns: &[Scenario], results: &[(usize, String
     for m in &mism {
         eprintln!("note: state de-duplication audit: {}", m);
     }
-    json!({"scenarios_re_explored_without_merging": audited, "paths": paths, "skipped_tree_too_large": skipped,
+    json!({"scenarios_re_explored_without_merging": audited, "paths": paths, "skipped_tree_too_large_or_budget_spent": skipped, "path_budget": budget,
            "eligible_max_states": max_states, "mismatches": mism})
 }
 
